@@ -48,11 +48,15 @@ class World(object):
         self.path = os.path.join(self.dir, "sg0")
         self.files = []
         self.opens = []
+        self.fail_open = False
         self.n = 0
         world = self
 
         def tracking_open(path, mode="r", buffering=-1, *a, **k):
             world.opens.append((path, mode))
+            if world.fail_open:
+                world.fail_open = False
+                raise PermissionError(13, "Permission denied (injected on open)")
             t = Tracked(open(path, mode, buffering=buffering), world)
             world.files.append(t)
             return t
@@ -75,6 +79,7 @@ class World(object):
                 t._f.close()
         del self.files[:]
         del self.opens[:]
+        self.fail_open = False
         if self.present():
             os.unlink(self.path)
         self.new_node()
@@ -140,6 +145,10 @@ def run_history(w, detect, rw, acts, how="explicit"):
             if w.present():
                 continue
             w.new_node()
+        elif a == "armopen":
+            if closed or not detect or w.fail_open:
+                continue
+            w.fail_open = True
         elif a == "arm":
             if closed or armed or not w.files or w.files[-1].closed:
                 continue
@@ -179,7 +188,7 @@ def run_history(w, detect, rw, acts, how="explicit"):
             armed = False
             ev.append({"a": a, "obs": w.obs(out, n0)})
             continue
-        ev.append({"a": a, "obs": {"out": "ok", "sent": "none", "live": 0, "hopen": True}})
+        ev.append({"a": a, "obs": {"out": "ok", "sent": "none", "live": 0, "hopen": True, "hmode": "rw" if rw else "ro"}})
     return ev
 
 
@@ -209,7 +218,7 @@ def iscsi_sessions(w_fi):
     return out
 
 
-ALPHA = ("exec", "replug", "unplug", "plug", "arm", "close", "exit_ok", "exit_exc")
+ALPHA = ("exec", "replug", "unplug", "plug", "arm", "armopen", "close", "exit_ok", "exit_exc")
 
 
 def run(chk, replay=None):
@@ -230,7 +239,7 @@ def run(chk, replay=None):
     try:
         depth = 4 if chk.quick else 6
         hist = []
-        short = ("exec", "replug", "unplug", "plug", "arm", "close")
+        short = ("exec", "replug", "unplug", "plug", "arm", "armopen", "close")
         for detect in (True, False):
             for rw in (False, True):
                 for n in range(1, depth + 1):
@@ -239,12 +248,12 @@ def run(chk, replay=None):
                             continue
                         hist.append((detect, rw, acts))
                 for tail in ("exit_ok", "exit_exc"):
-                    for acts in itertools.product(("exec", "replug", "arm", "unplug"), repeat=3):
+                    for acts in itertools.product(("exec", "replug", "arm", "unplug", "armopen"), repeat=3):
                         hist.append((detect, rw, acts + (tail,)))
         rng = random.Random(chk.seed)
         for _ in range(200 if chk.quick else 10000):
             hist.append((rng.random() < 0.7, rng.random() < 0.5,
-                         tuple(rng.choice(ALPHA[:5]) for _ in range(rng.randint(5, 40))) + (rng.choice(ALPHA[5:]),)))
+                         tuple(rng.choice(ALPHA[:6]) for _ in range(rng.randint(5, 40))) + (rng.choice(ALPHA[6:]),)))
         events = []
         index = []           # event index -> history
         for hi, h in enumerate(hist):
